@@ -340,6 +340,35 @@ def resetOptionsToUnchecked (g : Nat → Nat) (m : Mem) (o : Options View) (buf 
 def resetOptionsTo (g : Nat → Nat) (m : Mem) (o : Options View) (buf : Slice) (inp : List (Opt View)) : M Res :=
   if resetChecksSizeBeforeOverwrite then resetOptionsToChecked g m o buf inp else resetOptionsToUnchecked g m o buf inp
 
+/-- The copy-and-add loop of `ResetOptionsTo` when `in` is a slice `options[k:k+n]` of the receiver's **own backing
+array** (`m.ResetOptionsTo(m.Options()[k:])`): iteration `idx` reads `in[idx]`, i.e. element `rd = k + idx` of the array
+*as it is at that moment*, while the `Add`s of the earlier iterations have been writing into the same array.  `src` is
+the array `in` points to: it follows `opts.arr` as long as `Add` works in place and is frozen at the first reallocation. -/
+def resetLoopAliased (g : Nat → Nat) : Nat → Nat → Mem → Options View → List (Opt View) → Slice → Nat → M Res
+  | 0, _, m, opts, _, _, used => pure ⟨m, opts, used, none⟩
+  | cnt + 1, rd, m, opts, src, buf, used => do
+    let x ← (match src[rd]? with
+      | some x => pure x
+      | none => .error .index : M (Opt View))
+    let m' := m.copyTo buf (m.read x.2)
+    let v ← buf.head m' x.2.len
+    let inPlace := opts.len < opts.arr.length
+    let opts' ← opts.add g (x.1, v)
+    let buf' ← buf.tail x.2.len
+    resetLoopAliased g cnt (rd + 1) m' opts' (if inPlace then opts'.arr else src) buf' (used + x.2.len)
+
+/-- `options.ResetOptionsTo(buf, options[k:k+n])`: the input aliases the receiver's array (modelled for the repaired
+statement order; the sizes are summed before anything is written). -/
+def resetOptionsToAliased (g : Nat → Nat) (m : Mem) (o : Options View) (buf : Slice) (k n : Nat) : M Res :=
+  if k + n > o.arr.length then .error .slice           -- options[k:k+n] beyond the capacity
+  else if resetChecksSizeBeforeOverwrite then
+    let total := totalLen ((o.arr.drop k).take n)
+    if buf.len < total then pure ⟨m, o, total, some .tooSmall⟩
+    else do
+      let opts ← o.reslice 0
+      resetLoopAliased g n k m opts o.arr buf 0
+  else resetOptionsToUnchecked g m o buf ((o.arr.drop k).take n)   -- (array aliasing not modelled for the old shape)
+
 /-- `Clone() (Options, error)`; `gb` is the growth policy of `append` on byte slices (minimum = what is asked for). -/
 def clone (g : Nat → Nat) (m : Mem) (o : Options View) : M (Mem × Options View × Option Err) := do
   let opts : Options View := Options.make o.len
